@@ -170,27 +170,24 @@ pub fn canon(c: &mut Class) {
     if let Some(v) = &mut c.inner_classes { v.sort_by(|a, b| (&a.inner, &a.outer, &a.name, a.flags).cmp(&(&b.inner, &b.outer, &b.name, b.flags))); }
 }
 
-pub struct JarJudgement { pub observed_names: BTreeMap<String, Option<String>>, pub ok: bool }
+pub struct JarJudgement { pub ok: bool }
 
 /// Compares the output of `nest_jar` with the expectation. `inputs` = (old class name, parsed input model).
-/// Returns, per input class, the name under which its content was found (None when it could not be located).
 pub fn judge_jar(rep: &mut Report, inputs: &[(String, Class)], others: &[(String, InEntry)], rows: &[Row], exp: &JarExpectation, out: &[(String, OutEntry)], detail: &dyn Fn() -> Value) -> JarJudgement {
     let mut ok = true;
-    let mut bad = |rep: &mut Report, sig: String, extra: Value| { rep.violation(sig, json!({"where": extra, "input": detail()})); };
+    let bad = |rep: &mut Report, sig: String, extra: Value| { rep.violation(sig, json!({"where": extra, "input": detail()})); };
     let out_map: BTreeMap<&str, &OutEntry> = out.iter().map(|(n, e)| (n.as_str(), e)).collect();
     if out_map.len() != out.len() { bad(rep, "C14 jar: two output entries under one name".into(), json!(out.iter().map(|(n, _)| n).collect::<Vec<_>>())); ok = false; }
     let by_class: BTreeMap<&str, (&Row, Option<&'static str>)> = rows.iter().zip(&exp.verdicts).map(|(r, v)| (r.class.as_str(), (r, *v))).collect();
     let mut expected_entries: BTreeSet<String> = BTreeSet::new();
-    let mut observed_names = BTreeMap::new();
     // ---- pass 1: every input class must be stored under the name the reference gives it
     let new_name = |old: &String| exp.names.get(old).cloned().unwrap_or_else(|| old.clone());
     let misplaced: BTreeSet<&str> = inputs.iter().filter(|(old, _)| !out_map.contains_key(format!("{}.class", new_name(old)).as_str())).map(|(o, _)| o.as_str()).collect();
     for (old, _) in inputs {
         let ename = format!("{}.class", new_name(old));
         expected_entries.insert(ename.clone());
-        if !misplaced.contains(old.as_str()) { observed_names.insert(old.clone(), Some(new_name(old))); continue; }
+        if !misplaced.contains(old.as_str()) { continue; }
         ok = false;
-        observed_names.insert(old.clone(), None);
         let row_info = by_class.get(old.as_str());
         // a class below a misplaced enclosing class is misplaced as a consequence: only the topmost one is reported
         if let Some((r, _)) = row_info { if misplaced.contains(r.encl.as_str()) { rep.count("jar.misplaced_as_a_consequence_of_its_enclosing_class"); continue; } }
@@ -272,7 +269,7 @@ pub fn judge_jar(rep: &mut Report, inputs: &[(String, Class)], others: &[(String
         if !same { ok = false; bad(rep, "C14 jar: a non-class entry is lost or changed".into(), json!({"entry": n})); } else { rep.count("jar.other_entries_kept"); }
     }
     for (n, _) in out { if names_ok && !expected_entries.contains(n) { ok = false; bad(rep, "C14 jar: unexpected entry in the nested jar".into(), json!({"entry": n, "expected entries": expected_entries})); } }
-    JarJudgement { observed_names, ok }
+    JarJudgement { ok }
 }
 
 /// emits a body and checks the harness' own parser reads it back (harness error otherwise)
